@@ -446,6 +446,15 @@ where
     }
 }
 
+/// The first `n` bytes of `s`, cut back to a character boundary (diagnostic text may contain any UTF-8).
+pub fn clip(s: &str, n: usize) -> &str {
+    if s.len() <= n {
+        return s;
+    }
+    let cut = (0..=n).rev().find(|i| s.is_char_boundary(*i)).unwrap_or(0);
+    &s[..cut]
+}
+
 pub fn boxed<S: Strategy + 'static>(s: S) -> BoxedStrategy<S::Value> {
     s.boxed()
 }
